@@ -6,7 +6,7 @@ import z3
 
 from vf import sym, models, ops
 from vf.sym import SV, INT, BOOL, STR, BYTES, Opt
-from vf.interp import Model, Raised, Exc, Obj, PyRef
+from vf.interp import Model, Raised, Exc, Obj, PyRef, IterSpec
 from vf.unit import Unit, Lemma
 from vf.ops import MethodModel
 from specs import shared
@@ -333,3 +333,203 @@ def compile_post(prop):
 
 def compile_unit(prop):
     return Unit(f'{prop}.compile_or_none', REPO_PY, 'Repository._compile_or_none', compile_setup, compile_post(prop), prop=prop)
+
+
+# ------------------------------------------------------------------ _load_snapshots: the outer generator
+# (listing -> one loader job per listed path -> every job's result is delivered once, None results skipped)
+import ast as _ast
+FUT = models.opaque_type('Future')
+FUT.identity = True
+
+
+def _load_region(stmt):
+    return isinstance(stmt, _ast.AsyncFor)
+
+
+def load_outer_setup(b):
+    from vf.sym import Dict
+    me = shared.repo_self(b)
+    b.me = me
+    n = z3.Int('n_listed')
+    m = z3.Int('n_done')
+    b.assume(n >= 0)
+    listed = lambda k: UF('listed_path', INT, STR)(k)
+    done = lambda k: UF('completed_future', INT, FUT)(k)
+    fut_of = lambda p: UF('future_of_path', STR, FUT)(p)
+    result = lambda f: UF('future_result', FUT, Opt(shared.BODY))(f)
+    b.listed, b.done, b.fut_of, b.result, b.n, b.m = listed, done, fut_of, result, n, m
+    LIST_FILES = Obj('backend.list_files')
+    me._attrs['backend'] = Obj('backend', list_files=LIST_FILES)
+    b.LIST_FILES = LIST_FILES
+
+    def aiter(interp, st, args, kwargs):
+        st.emit('listing', func=args[0], args=list(args[1:]), kwargs=dict(kwargs))
+        yield st, IterSpec(n, lambda k: SV(STR, listed(k)))
+
+    me._attrs['_aiter'] = Model('_aiter', aiter)
+    b.bind('loader', sym.fresh(models.opaque_type('Executor'), 'loader'))
+    b.bind('_download_snapshot', sym.fresh(models.opaque_type('LoaderFn'), '_download_snapshot'))
+
+    def run_in_executor(interp, st, args, kwargs):
+        st.emit('submit', executor=args[0], fn=args[1], rest=list(args[2:]))
+        p = sym.lift(args[2], STR) if len(args) > 2 else sym.fresh(STR, 'nopath')
+        yield st, SV(FUT, fut_of(p.z))
+
+    b.bind('loop', Obj('loop', run_in_executor=Model('run_in_executor', run_in_executor)))
+    f2p = b.ref('future_to_path', sym.DictC(FUT, STR))
+    b.f2p = f2p
+
+    def as_completed(interp, st, args, kwargs):
+        st.emit('as_completed', arg=args[0])
+        # contract of utils.as_completed (own unit): yields every task of its argument exactly once, when done
+        st.assume(m >= 0)
+        yield st, IterSpec(m, lambda k: SV(FUT, done(k)))
+
+    b.bind('utils', Obj('utils', as_completed=Model('as_completed', as_completed)))
+
+    def on_await(interp, st, v):
+        bad = st.copy()
+        bad.emit('job_failed', future=v)
+        yield bad, Raised(Exc('AnyError'))
+        yield st, SV(Opt(shared.BODY), result(v.z))
+
+    FUT.on_await = on_await
+
+
+def load_outer_post(prop):
+    from vf.sym import Dict
+    def post(res):
+        b = res.builder
+        DC = sym.DictC(FUT, STR)
+        n1 = n2 = 0
+        for p in res.body_paths('AsyncFor#1'):
+            n1 += 1
+            evs = p.st.events
+            start = [i for i, e in enumerate(evs) if e.kind == 'loop_body' and e.data.get('loop') == 'AsyncFor#1'][-1]
+            it = evs[start:]
+            path = p.st.lookup('path')
+            subs = [e for e in it if e.kind == 'submit']
+            stores = [e for e in it if e.kind == 'dict_store']
+            ok = (len(subs) == 1 and subs[0].data['executor'] is b.st.lookup('loader') and subs[0].data['fn'] is b.st.lookup('_download_snapshot')
+                  and len(subs[0].data['rest']) == 1)
+            # exactly one loader job per listed path, for THAT path, and it is remembered under its future
+            res.oblige(p, f'{prop}.load_outer.one_job_per_listed_path', z3.BoolVal(ok) if not ok else sym.lift(subs[0].data['rest'][0], STR).z == path.z)
+            ok2 = len(stores) == 1
+            res.oblige(p, f'{prop}.load_outer.job_remembered_under_its_future', z3.BoolVal(ok2) if not ok2 else z3.And(
+                sym.lift(stores[0].data['key'], FUT).z == b.fut_of(path.z), sym.lift(stores[0].data['value'], STR).z == path.z))
+        for p in res.all_paths():
+            for e in p.events('listing'):
+                a = e.data['args']
+                # the snapshot area of the backend is listed (nothing else decides which snapshots exist)
+                res.oblige(p.pc_at(e), f'{prop}.load_outer.lists_the_snapshot_area', z3.And(
+                    z3.BoolVal(e.data['func'] is b.LIST_FILES and len(a) == 1 and not e.data['kwargs']),
+                    sym.lift(a[0], STR).z == sym.lift(b.me.get('SNAPSHOT_PREFIX'), STR).z if len(a) == 1 else z3.BoolVal(False)))
+            for e in p.events('as_completed'):
+                res.oblige(p.pc_at(e), f'{prop}.load_outer.waits_for_every_job', z3.BoolVal(
+                    isinstance(e.data['arg'], SV) and z3.eq(e.data['arg'].z, b.f2p.z)))
+        for p in res.body_paths('AsyncFor#2'):
+            n2 += 1
+            evs = p.st.events
+            start = [i for i, e in enumerate(evs) if e.kind == 'loop_body' and e.data.get('loop') == 'AsyncFor#2'][-1]
+            it = evs[start:]
+            task = p.st.lookup('task')
+            r = b.result(task.z)
+            ys = [e for e in it if e.kind == 'yield']
+            failed = [e for e in it if e.kind == 'job_failed']
+            if failed:
+                # a failed loader job (corrupted snapshot, backend error) fails the whole load
+                res.oblige(p, f'{prop}.load_outer.job_failure_propagates', z3.BoolVal(p.kind == 'raise'))
+                continue
+            if p.kind == 'raise':
+                continue
+            isnone = Opt(shared.BODY).is_none(r)
+            # every job that produced a body is yielded once, with the path it was started for; None (filtered) is skipped
+            res.oblige(p, f'{prop}.load_outer.yields_iff_body', z3.If(isnone, z3.BoolVal(not ys), z3.BoolVal(len(ys) == 1)))
+            for y in ys:
+                v = y.data['value']
+                okv = isinstance(v, tuple) and len(v) == 2
+                h = p.st.heap
+                res.oblige(p.pc_at(y), f'{prop}.load_outer.yields_path_of_the_job_and_its_body', z3.BoolVal(okv) if not okv else z3.And(
+                    sym.lift(v[0], STR).z == z3.Select(h.read(DC, 'val', b.f2p.z), task.z),
+                    (v[1].z == r) if isinstance(v[1], SV) and v[1].ty == Opt(shared.BODY) else sym.lift(v[1], shared.BODY).z == Opt(shared.BODY).val(r)))
+        res.oblige([], f'{prop}.load_outer.iterations_checked', z3.BoolVal(n1 >= 1 and n2 >= 2))
+    return post
+
+
+def load_outer_unit(prop):
+    from vf.interp import LoopSpec
+    t = lambda ctx: z3.BoolVal(True)
+    DC = sym.DictC(FUT, STR)
+    mods = [('heap', DC, 'has'), ('heap', DC, 'val'), ('heap', DC, 'n'), ('heap', DC, 'order')]
+    return Unit(f'{prop}.load_snapshots_outer', REPO_PY, 'Repository._load_snapshots', load_outer_setup, load_outer_post(prop),
+                loops={'AsyncFor#1': LoopSpec(t, modifies=mods, name='AsyncFor#1'), 'AsyncFor#2': LoopSpec(t, modifies=[], name='AsyncFor#2')},
+                stmt=_load_region, prop=prop)
+
+
+# ------------------------------------------------------------------ utils.as_completed
+def as_completed_setup(b):
+    n = z3.Int('n_tasks')
+    b.assume(n >= 0)
+    b.n = n
+    TASK = models.opaque_type('Task')
+
+    def add_done_callback(interp, st, args, kwargs):
+        st.emit('add_done_callback', task=args[0], callback=args[1])
+        yield st, None
+
+    TASK.attrs = {'add_done_callback': MethodModel('add_done_callback', add_done_callback)}
+    b.bind('tasks', IterSpec(n, lambda k: SV(TASK, UF('task_at', INT, TASK)(k))))
+    PUT = Model('put_nowait', lambda i, s, a, k: iter([(s, None)]))
+    b.PUT = PUT
+
+    def get(interp, st, args, kwargs):
+        st.emit('queue_get')
+        yield st, sym.fresh(TASK, 'finished_task')
+
+    def queue_ctor(interp, st, args, kwargs):
+        st.emit('queue_created', args=list(args), kwargs=dict(kwargs))
+        yield st, Obj('queue', put_nowait=PUT, get=Model('get', get))
+
+    b.bind('asyncio', Obj('asyncio', Queue=Model('Queue', queue_ctor)))
+
+
+def as_completed_post(prop):
+    def post(res):
+        b = res.builder
+        n1 = n2 = 0
+        for p in res.body_paths('For#1'):
+            n1 += 1
+            evs = p.st.events
+            start = [i for i, e in enumerate(evs) if e.kind == 'loop_body' and e.data.get('loop') == 'For#1'][-1]
+            cbs = [e for e in evs[start:] if e.kind == 'add_done_callback']
+            task = p.st.lookup('task')
+            ok = len(cbs) == 1 and cbs[0].data['callback'] is b.PUT
+            # every task announces its completion on the queue (non-blocking put of the task itself)
+            res.oblige(p, f'{prop}.as_completed.every_task_reports_to_the_queue', z3.BoolVal(ok) if not ok else cbs[0].data['task'].z == task.z)
+        for p in res.body_paths('For#2'):
+            n2 += 1
+            evs = p.st.events
+            start = [i for i, e in enumerate(evs) if e.kind == 'loop_body' and e.data.get('loop') == 'For#2'][-1]
+            it = evs[start:]
+            gets = [e for e in it if e.kind == 'queue_get']
+            ys = [e for e in it if e.kind == 'yield']
+            # one completed task is taken from the queue and yielded per task: as many results as tasks, none dropped
+            res.oblige(p, f'{prop}.as_completed.one_result_per_task', z3.BoolVal(len(gets) == 1 and len(ys) == 1 and p.kind in ('normal', 'continue')))
+        for p in res.all_paths():
+            for e in p.events('queue_created'):
+                # an unbounded queue: put_nowait from a done-callback can never fail with QueueFull
+                res.oblige(p.pc_at(e), f'{prop}.as_completed.queue_unbounded', z3.BoolVal(not e.data['args'] and not e.data['kwargs']))
+        res.oblige([], f'{prop}.as_completed.iterations_checked', z3.BoolVal(n1 >= 1 and n2 >= 1))
+    return post
+
+
+def as_completed_unit(prop):
+    from vf.interp import LoopSpec
+    from specs.shared import UTILS_PY
+    t = lambda ctx: z3.BoolVal(True)
+    return Unit(f'{prop}.as_completed', UTILS_PY, 'as_completed', as_completed_setup, as_completed_post(prop),
+                loops={'For#1': LoopSpec(t, modifies=[], name='For#1'), 'For#2': LoopSpec(t, modifies=[], name='For#2')}, prop=prop)
+
+
+def load_units(prop):
+    return [load_outer_unit(prop), as_completed_unit(prop)]
